@@ -22,7 +22,9 @@ Imports == {"asis", "local", "decoy"}   \* decoy: an unrelated function imports 
 \* two lines after its operator (legal only inside the parentheses: a rewrite that drops them must re-join the lines)
 \* "list-elements": the call of the touched statement becomes two elements of a list literal laid out one per line (a site
 \* that starts on a continuation line of its statement)
-Args    == {"asis", "kwspread-last", "kwspread-mid", "extra-kw", "dict-spread", "same-line-pair", "multiline", "list-elements"}
+\* "fstring-field": the call of the touched statement becomes the replacement field of an f-string (a rewrite that starts
+\* with a brace, or brings the quote of the string along, changes the string or breaks it)
+Args    == {"asis", "kwspread-last", "kwspread-mid", "extra-kw", "dict-spread", "same-line-pair", "multiline", "list-elements", "fstring-field"}
 
 VARIABLES v, st
 
